@@ -147,8 +147,11 @@ def case_st(draw):
 BUNDLE = {
     "zi_inc.f90": "      integer :: inc_var\n      real :: inc_other\n",
     "zi_main.f90": "subroutine zi_user()\n  implicit none\n  include 'zi_inc.f90'\n  inc_var = 1\n  inc_other = 2.0\nend subroutine zi_user\n",
-    "zs_par.f90": "module zs_par\n  implicit none\n  type :: zs_t\n    integer :: zc\n  end type zs_t\n  interface\n    module subroutine zs_work(a)\n      integer, intent(in) :: a\n    end subroutine zs_work\n  end interface\nend module zs_par\n",
-    "zs_sub.f90": "submodule (zs_par) zs_sub\n  implicit none\ncontains\n  module subroutine zs_work(a)\n    integer, intent(in) :: a\n    type(zs_t) :: loc\n    loc%zc = a\n  end subroutine zs_work\nend submodule zs_sub\n",
+    "zs_par.f90": "module zs_par\n  implicit none\n  type :: zs_t\n    integer :: zc\n  end type zs_t\n  interface\n    module subroutine zs_work(a)\n      integer, intent(in) :: a\n    end subroutine zs_work\n"
+                  "    module function zs_dbl(zx) result(zy)\n      integer, intent(in) :: zx\n      integer :: zy\n    end function zs_dbl\n  end interface\nend module zs_par\n",
+    # the second implementation uses the MODULE PROCEDURE form: its dummies are declared in the parent's interface body only
+    "zs_sub.f90": "submodule (zs_par) zs_sub\n  implicit none\ncontains\n  module subroutine zs_work(a)\n    integer, intent(in) :: a\n    type(zs_t) :: loc\n    loc%zc = a\n  end subroutine zs_work\n"
+                  "  module procedure zs_dbl\n    zy = 2 * zx\n  end procedure zs_dbl\nend submodule zs_sub\n",
     "zp_pre.F90": "#define ZP_ON 1\nmodule zp_pre\n  implicit none\n#ifdef ZP_ON\n  integer :: zp_yes\n#else\n  integer :: zp_no\n#endif\nend module zp_pre\n",
     "ze_ext.f90": "module ze_base\n  implicit none\n  type :: ze_p\n    integer :: pc\n  contains\n    procedure :: pb => ze_impl\n  end type ze_p\ncontains\n  subroutine ze_impl(self)\n    class(ze_p), intent(inout) :: self\n    self%pc = 1\n  end subroutine ze_impl\nend module ze_base\n",
     "ze_use.f90": "module ze_child\n  use ze_base\n  implicit none\n  type, extends(ze_p) :: ze_c\n    integer :: cc\n  end type ze_c\n  type(ze_c) :: ze_obj\n  type(ze_p) :: ze_direct\ncontains\n  subroutine ze_go()\n    ze_obj%pc = ze_obj%cc\n    ze_direct%pc = 2\n    call ze_direct%pb()\n    call ze_obj%pb()\n    associate (zz => ze_obj%pc)\n      ze_obj%cc = zz\n    end associate\n  end subroutine ze_go\nend module ze_child\n",
@@ -167,7 +170,7 @@ BUNDLE["za_first.f90"] = ("module za_first\n  use ze_child\n  implicit none\ncon
 BUNDLE_VARIANTS = {
     "zi_inc.f90": ["      integer :: inc_renamed\n      real :: inc_other\n", "      real :: inc_other\n", "      integer :: inc_var, inc_more\n      real :: inc_other\n"],
     "zi_main.f90": ["subroutine zi_user()\n  implicit none\n  integer :: own\n  own = 1\nend subroutine zi_user\n"],
-    "zs_par.f90": [BUNDLE["zs_par.f90"].replace("zs_work", "zs_other"), BUNDLE["zs_par.f90"].replace("integer :: zc", "integer :: zc\n    integer :: zd"),
+    "zs_par.f90": [BUNDLE["zs_par.f90"].replace("zs_dbl", "zs_dbx"), BUNDLE["zs_par.f90"].replace("zs_work", "zs_other"), BUNDLE["zs_par.f90"].replace("integer :: zc", "integer :: zc\n    integer :: zd"),
                    BUNDLE["zs_par.f90"].replace("zs_t", "zs_u")],
     "zs_sub.f90": [BUNDLE["zs_sub.f90"].replace("(zs_par)", "(zs_gone)"), BUNDLE["zs_sub.f90"].replace("loc%zc = a", "loc%zc = a + 1")],
     "zp_pre.F90": [BUNDLE["zp_pre.F90"].replace("#define ZP_ON 1\n", ""), BUNDLE["zp_pre.F90"].replace("zp_yes", "zp_maybe")],
@@ -317,8 +320,18 @@ def execute(case, scratch):
     # files that #include a header the history modified, deleted or re-created
     includers = {n for n, t in list(disk.items()) + list(case["files"].items())
                  if any(re.search(r'^\s*#\s*include\s*"%s"' % re.escape(h), t, re.M) for h in info["headers_touched"])}
+    parent_now = disk.get("zs_par.f90", "")
     for sec, key, a, b in battery.diff(b_long, b_fresh):
         label = "history-dependent:" + sec
+        if "function zs_dbl" not in parent_now and re.search(r"zs_dbl|\bz[xy]\b", str(key) + json.dumps([a, b], default=str)):
+            # the MODULE PROCEDURE implementation in the submodule was replaced by a copy of the interface it was first
+            # linked with; when the parent's interface disappears (or changes kind) the copy stays
+            label = "history-dependent:submodule-module-procedure-keeps-the-interface-it-was-first-linked-with"
+            if label not in seen:
+                seen.add(label)
+                discs.append(Disc(label, f"{sec} {key}: long-lived server {json.dumps(a, default=str)[:200]} vs fresh server {json.dumps(b, default=str)[:200]}",
+                                  {"section": sec, "key": key}))
+            continue
         if includers and any(n in str(key) or n in json.dumps([a, b], default=str) for n in includers):
             # fortls does not track which files #include a header: after the header changes, its includers keep the macro
             # table of their last parse until they are parsed again themselves
